@@ -146,6 +146,8 @@ class Emit:
     def e(self, x):
         k = x[0]
         if k == "num":
+            if re.search(r"[.eE]|f32|f64", x[1]) and not re.fullmatch(r"0x[0-9a-fA-F_]+", x[1]):
+                return "(%s : %s)" % (number(x[1]), self.cfg.get("scalar", "α"))     # a float literal: typed, so that `let mut acc = 0.0` is not a Nat
             return number(x[1])
         if k == "paren":
             return "(" + self.e(x[1]) + ")"
@@ -268,7 +270,8 @@ class Emit:
         def walk(x):
             if x[0] == "assign" and self.lhs_name(x[1]) is not None:
                 add(self.lhs_name(x[1]))
-            elif x[0] == "mcall" and x[2] in ("push", "pop", "push_back", "pop_front") and self.lhs_name(x[1]) is not None:
+            elif x[0] == "mcall" and (x[2] in ("push", "pop", "push_back", "pop_front") or x[2] in self.cfg.get("mutmethods", {})) \
+                    and self.lhs_name(x[1]) is not None:
                 add(self.lhs_name(x[1]))
             elif x[0] == "for":
                 for v in self.assigned(self.as_stmts(x[3])):
@@ -318,6 +321,10 @@ class Emit:
         if x[0] == "mcall" and self.lhs_name(x[1]) is not None and x[2] == "pop_front" and not x[3]:
             v = self.lhs_name(x[1])
             return "let %s := (List.tail %s);\n    %s" % (v, v, tailstr())
+        if x[0] == "mcall" and self.lhs_name(x[1]) is not None and x[2] in self.cfg.get("mutmethods", {}):
+            v = self.lhs_name(x[1])
+            args = [v] + [self.atom(a) for a in x[3]]
+            return "let %s := (%s);\n    %s" % (v, self.cfg["mutmethods"][x[2]].format(*args), tailstr())
         if x[0] == "for":
             if x[1][0] != "pvar" or x[2][0] != "range":
                 raise Unsupported("for loop that is not `for i in a..b`")
@@ -409,6 +416,16 @@ KERNELS = [
          sig="(wpos : α) (k _p : α) : List α", field={"self.std_position_weight": "wpos"}),
     dict(group="Kalman", name="point_std_velocity", file="utils/kalman/kalman_2d_point.rs", impl=r"impl Point2DKalmanFilter \{", fn="std_velocity",
          sig="(wvel : α) (k _p : α) : List α", field={"self.std_velocity_weight": "wvel"}),
+    # ---- feature distances (C16): index loops over SIMD blocks with mutable accumulators
+    dict(group="Feat", name="euclidean", file="distance.rs", impl=None, fn="euclidean",
+         sig="(sqrt : α → α) (f1 f2 : List (List α)) : α", imperative=True,
+         method={"len": "List.length {0}", "min": "Nat.min {0} {1}", "reduce_add": "Feature.lsum {0}", "sqrt": "sqrt {0}"},
+         mutmethods={"sub_assign": "Feature.blockSub {0} {1}", "mul_assign": "Feature.blockMul {0} {1}"}),
+    dict(group="Feat", name="cosine", file="distance.rs", impl=None, fn="cosine",
+         sig="(sqrt : α → α) (f1 f2 : List (List α)) : α", imperative=True,
+         method={"len": "List.length {0}", "min": "Nat.min {0} {1}", "reduce_add": "Feature.lsum {0}", "sqrt": "sqrt {0}",
+                 "iter": "{0}", "take": "List.take {1} {0}", "fold": "List.foldl {2} {1} {0}", "mul": "Feature.blockMul {0} {1}"},
+         mutmethods={"sub_assign": "Feature.blockSub {0} {1}", "mul_assign": "Feature.blockMul {0} {1}"}),
     # ---- the Sutherland-Hodgman loops (C08): imperative body, state-passing translation
     dict(group="Clip", name="sutherland_hodgman_clip", file="utils/clipping.rs", impl=None, fn="sutherland_hodgman_clip",
          sig="(subject_polygon clipping_polygon : List (Pt α)) : List (Pt α)", imperative=True,
@@ -514,6 +531,8 @@ LOGIC = [
 def gen(repo, cfgs, header, footer):
     out, unread = [header], []
     for c in cfgs:
+        if c in LOGIC:
+            c = dict(c, scalar=c.get("scalar", "Rat"))
         path = os.path.join(repo, "src", c["file"])
         try:
             text = open(path).read()
@@ -546,13 +565,13 @@ deriving DecidableEq, Repr
 def lookupEpoch (m : List (Nat × Nat)) (k : Nat) : Option Nat := (m.find? (fun p => p.1 == k)).map (·.2)
 """
 # group -> (file, configs, header, namespace)
-K_GROUPS = ["Radius", "Box", "Inter", "Dist", "Kalman", "SMetric", "VMetric", "Clip"]
+K_GROUPS = ["Radius", "Box", "Inter", "Dist", "Kalman", "SMetric", "VMetric", "Clip", "Feat"]
 POSMETRIC = """/-- `PositionalMetricType` -/
 inductive PosMetric (α : Type) where
   | maha
   | iou (thr : α)
 """
-K_IMPORTS = {"Clip": "import SimVerif.Gen.KInter\n", "Inter": "import SimVerif.Gen.KRadius\n", "Dist": "import SimVerif.Gen.KRadius\n",
+K_IMPORTS = {"Feat": "import SimVerif.Model.Feature\n", "Clip": "import SimVerif.Gen.KInter\n", "Inter": "import SimVerif.Gen.KRadius\n", "Dist": "import SimVerif.Gen.KRadius\n",
              "SMetric": "import SimVerif.Gen.KInter\nimport SimVerif.Gen.KKalman\n",
              "VMetric": "import SimVerif.Gen.KSMetric\nimport SimVerif.Gen.KRadius\nimport SimVerif.Model.VisualMetric\n"}
 K_PRELUDE = {"Clip": "/-- `Vec` indexing panics out of range; the model reads a default there (never reached: indices are in range) -/\ninstance instInhabitedPt : Inhabited (Pt α) := ⟨((0 : α), (0 : α))⟩\n", "SMetric": POSMETRIC, "VMetric": "variable {F : Type}\n"}
